@@ -495,7 +495,7 @@ def _abstract_shared(x, y, k):
 
 
 def sweep(roots, assume, sampler, nsamp=24, timeout_ms=3000, rounds=4, verbose=False, hints=(), budget_s=None,
-          ladder=(0, 1, 2, 3, 4, 6)):
+          ladder=(0, 1, 2, 3, 4, 6), max_depth=None, protect=()):
     """Merge solver-proved equal (or opposite) internal nodes bottom-up and resolve conditions
     that are provably constant under the assumptions.  Random simulation only *proposes*
     candidates; each merge is justified by an `unsat` answer.  Returns (new_roots, log)."""
@@ -504,9 +504,11 @@ def sweep(roots, assume, sampler, nsamp=24, timeout_ms=3000, rounds=4, verbose=F
     log = {'candidates': 0, 'merged': 0, 'rounds': 0}
     t_start = time.time()
     hints = list(hints)
+    protect = list(protect)      # bool terms kept as they are (their sub-terms are merged, they are never resolved to a constant)
     for rnd in range(rounds):
         log['rounds'] += 1
-        allroots = roots + assume0 + hints
+        allroots = roots + assume0 + hints + protect
+        prot_ids = {t.id for t in protect}
         order = tm.topo(allroots)
         names = [t.v for t in order if t.op == 'var']
         envs = []
@@ -519,6 +521,8 @@ def sweep(roots, assume, sampler, nsamp=24, timeout_ms=3000, rounds=4, verbose=F
                 envs.append(val)
         if len(envs) < 4:
             log['note'] = 'sampler found too few points satisfying the assumptions'
+            log['swept_hints'] = hints
+            log['swept_protect'] = protect
             return roots, log
         ns = len(envs)
         classes = {}
@@ -526,7 +530,7 @@ def sweep(roots, assume, sampler, nsamp=24, timeout_ms=3000, rounds=4, verbose=F
         for t in order:
             vs = [envs[k][t.id] for k in range(ns)]
             if t.op in _BOOLISH:
-                if t.op == 'bconst':
+                if t.op == 'bconst' or t.id in prot_ids:
                     continue
                 if all(v is True for v in vs):
                     cands.append((t.depth, t.id, t, tm.TRUE, 0))
@@ -552,6 +556,8 @@ def sweep(roots, assume, sampler, nsamp=24, timeout_ms=3000, rounds=4, verbose=F
                 for t, sg in lst[1:]:
                     cands.append((t.depth, t.id, t, rep, sg * sg0))
         cands.sort(key=lambda c: (c[0], c[1]))
+        if max_depth is not None:
+            cands = [c for c in cands if c[0] <= max_depth]
         mp = {}
         changed = False
         for d, _, t, rep, sg in cands:
@@ -592,6 +598,90 @@ def sweep(roots, assume, sampler, nsamp=24, timeout_ms=3000, rounds=4, verbose=F
                 log['merged'] += 1
         roots = tm.subst(roots, mp)
         hints = tm.subst(hints, mp)
+        protect = tm.subst(protect, mp)
         if not changed:
             break
+    log['swept_hints'] = hints
+    log['swept_protect'] = protect
     return roots, log
+
+
+# ----------------------------------------------------------------------------------------
+# term-level case split (ite-free leaves)
+def ite_conditions(roots):
+    """distinct condition terms of the ite nodes in the DAG, shallowest first"""
+    seen = {}
+    for u in tm.topo(roots):
+        if u.op == 'ite' and u.a[0].op != 'bconst':
+            seen.setdefault(u.a[0].id, u.a[0])
+    return sorted(seen.values(), key=lambda t: (t.depth, t.id))
+
+
+def expand_minmax(roots):
+    """min/max/abs/sign -> ite, so that the case split can remove them"""
+    order = tm.topo(roots)
+    new = {}
+    for t in order:
+        na = [new[x.id] for x in t.a]
+        if t.op == 'min':
+            r = tm.ite(tm.le(na[0], na[1]), na[0], na[1])
+        elif t.op == 'max':
+            r = tm.ite(tm.le(na[1], na[0]), na[0], na[1])
+        elif t.op == 'abs':
+            r = tm.ite(tm.le(tm.ZERO, na[0]), na[0], tm.neg(na[0]))
+        elif t.op == 'sign':
+            r = tm.ite(tm.lt(tm.ZERO, na[0]), tm.ONE, tm.ite(tm.lt(na[0], tm.ZERO), tm.MONE, tm.ZERO))
+        elif not t.a:
+            r = t
+        elif all(x is y for x, y in zip(na, t.a)):
+            r = t
+        elif t.op == 'uf':
+            r = tm.T('uf', tuple(na), t.v)
+        else:
+            r = tm.mk(t.op, *na)
+        new[t.id] = r
+    return [new[r.id] for r in roots]
+
+
+def split_prove(goal, assume, timeout_ms=20000, max_leaves=256, feas_ms=2000, expand=False, deadline=None, stats=None):
+    """prove goal by splitting on the conditions of its ite nodes; every leaf is an ite-free query.
+    Returns Result; 'cex' carries the model of the first falsifiable leaf."""
+    if stats is None:
+        stats = {'leaves': 0, 'pruned': 0, 'unknown_leaves': 0}
+    if expand:
+        goal = expand_minmax([goal])[0]
+    assume = [a for a in assume if a is not tm.TRUE]
+    work = [(goal, [])]
+    unknown = None
+    while work:
+        if deadline is not None and time.time() > deadline:
+            return Result('unknown', note='split: deadline (%d leaves done)' % stats['leaves'])
+        g, extra = work.pop()
+        if g is tm.TRUE:
+            stats['leaves'] += 1
+            continue
+        conds = ite_conditions([g])
+        if not conds:
+            stats['leaves'] += 1
+            if stats['leaves'] > max_leaves:
+                return Result('unknown', note='split: more than %d leaves' % max_leaves)
+            r = valid(g, assume + extra, timeout_ms)
+            if r.verdict == 'cex':
+                r.note = 'split leaf'
+                return r
+            if r.verdict == 'unknown':
+                stats['unknown_leaves'] += 1
+                unknown = r
+            continue
+        c = conds[0]
+        for val in (True, False):
+            lit = c if val else tm.Not(c)
+            st, _ = satisfiable(assume + extra + [lit], feas_ms)
+            if st == 'unsat':
+                stats['pruned'] += 1
+                continue
+            g2 = tm.subst([g], {c.id: tm.TRUE if val else tm.FALSE})[0]
+            work.append((g2, extra + [lit]))
+    if unknown is not None:
+        return Result('unknown', note='split: %d leaf(s) unknown (%s)' % (stats['unknown_leaves'], unknown.note))
+    return Result('proved', note='split: %d leaves, %d pruned' % (stats['leaves'], stats['pruned']))
